@@ -8,6 +8,8 @@ import (
 	"encoding/hex"
 	"errors"
 	"fmt"
+	"io"
+	"io/fs"
 	"os"
 	"runtime/debug"
 	"strings"
@@ -19,6 +21,39 @@ var (
 	errInjectedWriter   = errors.New("verif: injected writer failure")
 	errInjectedCallback = errors.New("verif: injected callback failure")
 )
+
+// cbErr is the error value the walk callback of the current case returns at its failing index
+// (the first error of the callback must be returned UNCHANGED, whatever it is).
+var cbErr error
+
+// parseFail reads "K" or "K<kind>": the callback fails at visit K with the injected error, or with
+// s = fs.SkipDir, a = fs.SkipAll, e = io.EOF, c = context.Canceled, w = an error wrapping context.Canceled.
+func parseFail(tok string) int {
+	cbErr = errInjectedCallback
+	if tok == "-" || tok == "" {
+		return -1
+	}
+	kind := byte(0)
+	if c := tok[len(tok)-1]; c < '0' || c > '9' {
+		kind = c
+		tok = tok[:len(tok)-1]
+	}
+	switch kind {
+	case 's':
+		cbErr = fs.SkipDir
+	case 'a':
+		cbErr = fs.SkipAll
+	case 'e':
+		cbErr = io.EOF
+	case 'c':
+		cbErr = context.Canceled
+	case 'w':
+		cbErr = fmt.Errorf("stream abandoned: %w", context.Canceled)
+	}
+	n := -1
+	fmt.Sscanf(tok, "%d", &n)
+	return n
+}
 
 func unhex(h string) string {
 	if h == "-" || h == "_" {
@@ -61,7 +96,7 @@ func classify(err error, cbIndex int) string {
 		return "err:reader"
 	case errors.Is(err, errInjectedWriter):
 		return "err:writer"
-	case err == errInjectedCallback:
+	case err == errInjectedCallback || (cbErr != nil && err == cbErr):
 		return fmt.Sprintf("err:callback:%d", cbIndex)
 	case errors.Is(err, errInjectedCallback):
 		return fmt.Sprintf("err:callback_wrapped:%d", cbIndex)
